@@ -106,7 +106,7 @@ func e2eComponent(r *hx.Run) {
 	randPorts := func(many bool) string {
 		k := 1 + rng.Intn(3)
 		if many {
-			k = 201 + rng.Intn(3)
+			k = 601 + rng.Intn(3) // four engine runs
 		}
 		var ps []string
 		for i := 0; i < k; i++ {
@@ -160,12 +160,16 @@ func e2eComponent(r *hx.Run) {
 				continue
 			}
 			base, ones := randSubnet()
+			many := it == 0 && (len(sub) > 1 && sub[1] == "syn")
+			if many && ones < 31 { // several engine runs (> 200 ranges) on one or two hosts
+				ones = 31 + rng.Intn(2)
+				base &= ^uint32(0) << uint(32-ones)
+			}
 			addrs := subnetAddrs(base, ones)
 			kind := "pkt-tcp"
 			if sub[0] == "udp" {
 				kind = "pkt-udp"
 			}
-			many := it == 0 && (len(sub) > 1 && sub[1] == "syn") && ones >= 31
 			cases = append(cases, e2eCase{kind: kind, sub: sub, src: fmt.Sprintf("net:%d/%d", base, ones),
 				ports: randPorts(many), excl: randExcl(addrs)})
 		}
@@ -246,6 +250,14 @@ func e2eComponent(r *hx.Run) {
 		}
 	}
 
+	if os.Getenv("VERIF_SEARCH") == "1" {
+		// a proof obligation is broken: look harder for a failing input at the chunk boundaries
+		for i := 0; i < 6; i++ {
+			base := labNet | uint32(20+i)
+			cases = append(cases, e2eCase{kind: "pkt-tcp", sub: []string{"tcp", "syn"}, src: fmt.Sprintf("net:%d/32", base),
+				ports: randPorts(true), excl: "none"})
+		}
+	}
 	for ci, c := range cases {
 		cdir := filepath.Join(dir, fmt.Sprint(ci))
 		os.MkdirAll(cdir, 0o755)
@@ -356,9 +368,32 @@ func e2eComponent(r *hx.Run) {
 		} else {
 			lab.settle(30 * time.Millisecond)
 			lab.take()
-			res := runSX(stdin, 60*time.Second, args...)
+			var res sxRun
+			flood := c.kind == "pkt-tcp" && len(c.sub) > 1 && c.sub[1] == "syn" && strings.Count(c.ports, ",") >= 200
+			if flood {
+				// several engine runs (port chunks) WHILE the target keeps answering: replies to the first probe
+				// are injected all the way through the chunk boundaries (a scanned host with an open port does
+				// this).  Every port of every chunk must still be probed exactly once, and sx must not crash.
+				res = runSXWithReplies(lab, stdin, args)
+				r.Count("reply-flood")
+			} else {
+				res = runSX(stdin, 60*time.Second, args...)
+			}
 			lab.settle(60 * time.Millisecond)
 			frames := lab.take()
+			if flood {
+				// the kernel answers the injected SYN-ACKs with RSTs of its own: only SYNs are probes
+				var syn [][]byte
+				for _, f := range frames {
+					if len(f) >= 48 && f[12] == 8 && f[13] == 0 && f[23] == 6 {
+						ihl := int(f[14]&0xf) * 4
+						if len(f) >= 14+ihl+14 && f[14+ihl+13] == 0x02 {
+							syn = append(syn, f)
+						}
+					}
+				}
+				frames = syn
+			}
 			if res.timedOut {
 				obs = "TIMEOUT"
 			} else if res.exit != 0 {
@@ -387,6 +422,41 @@ func e2eComponent(r *hx.Run) {
 		}
 		r.Count("cmd:" + strings.Join(c.sub, " "))
 		r.Case(class, "gen", c.kind, c.src, c.ports, c.ports, c.excl, cache, gw, "S", obs)
+	}
+}
+
+// runSXWithReplies runs sx and, from its first TCP probe on, keeps injecting the SYN-ACK reply to that
+// probe (10 000 per second) until the process has ended
+func runSXWithReplies(lab *netlab, stdin []byte, args []string) sxRun {
+	resc := make(chan sxRun, 1)
+	go func() { resc <- runSX(stdin, 90*time.Second, args...) }()
+	var first []byte
+	deadline := time.Now().Add(10 * time.Second)
+	for first == nil && time.Now().Before(deadline) {
+		select {
+		case res := <-resc:
+			return res
+		default:
+		}
+		frames, _ := lab.peek()
+		for _, f := range frames {
+			if _, ok := frameView("pkt-tcp", f); ok {
+				first = f
+				break
+			}
+		}
+		time.Sleep(time.Millisecond)
+	}
+	for {
+		select {
+		case res := <-resc:
+			return res
+		default:
+		}
+		if first != nil {
+			lab.inject(replyTo("pkt-tcp", first))
+		}
+		time.Sleep(100 * time.Microsecond)
 	}
 }
 
